@@ -37,7 +37,7 @@ Theorem C14_unchecked_passthrough :
   (accepts o sig = false ->
      r_out r = Err EOs /\ same_core st (r_state r) /\
      fallback (r_state r) = (if os_query o sig then Some sig else fallback st) /\
-     fallback_inert (r_state r) /\ r_released r = [] /\ r_kept r = [] /\ r_leaked r = []).
+     fallback_inert (r_state r) /\ r_released r = all_params f /\ r_kept r = [] /\ r_leaked r = []).
 Proof. exact unchecked_all. Qed.
 
 Theorem C14_unchecked_kill_stop :
